@@ -1322,7 +1322,51 @@ func (g *gen) runMetadata() {
 		leg()
 		return true
 	}
-	g.loop([]wop{{22, opCreateVaried}, {30, opRoute}, {14, opRouteMulti}, {6, opForge}, {10, g.opAddURI}, {10, g.opUpdateAttr}, {8, g.lateNetwork}, {8, opSecondLegAfterUpdate}})
+	// a refund that comes home to ANOTHER NFT: only possible outside single-creator discipline (two creators mint one
+	// nonce with two hashes). A sends hers to a contract elsewhere that does not accept payments, B sends his to A, the
+	// refused message comes back flagged return-after-error: A holds another hash now - the refund is refused like any
+	// other credit of a different NFT (the flag lifts the freeze / pause gate, not the identity of the token).
+	opTwoCreatorsRefund := func() bool {
+		var a, b, c []byte
+		for _, u := range g.users {
+			if g.sink[string(u)] || g.shardOf(u) < 0 {
+				continue
+			}
+			if a == nil {
+				a = u
+			} else if b == nil && g.shardOf(u) == g.shardOf(a) {
+				b = u
+			}
+		}
+		for _, k := range g.contracts {
+			if a != nil && g.shardOf(k) >= 0 && g.shardOf(k) != g.shardOf(a) {
+				c = k
+				break
+			}
+		}
+		if a == nil || b == nil || c == nil {
+			return false
+		}
+		tok := g.newTokenID("")
+		g.drain()
+		g.do(g.sys(oracle.FnSetRole, a, tok, []byte(oracle.RoleNFTCreate)))
+		g.do(g.sys(oracle.FnSetRole, b, tok, []byte(oracle.RoleNFTCreate)))
+		g.do(g.user(oracle.FnNFTCreate, a, a, bigGas, tok, be(1), []byte("of-a"), be(100), []byte("hash-a"), []byte("attr-a"), []byte("uri-a")))
+		g.do(g.user(oracle.FnNFTCreate, b, b, bigGas, tok, be(1), []byte("of-b"), be(200), []byte("hash-b"), []byte("attr-b"), []byte("uri-b")))
+		g.emitf("payable %s no", hx(c))
+		multi := g.r.Intn(2) == 0
+		if multi {
+			g.do(g.user(oracle.FnMultiTransfer, a, a, bigGas, c, be(1), tok, be(1), be(1)))
+		} else {
+			g.do(g.user(oracle.FnNFTTransfer, a, a, bigGas, tok, be(1), be(1), c))
+		}
+		g.do(g.user(oracle.FnNFTTransfer, b, b, bigGas, tok, be(1), be(1), a))
+		g.drain()
+		g.emitf("payable %s yes", hx(c))
+		return true
+	}
+	opTwoCreatorsRefund()
+	g.loop([]wop{{1, opTwoCreatorsRefund}, {22, opCreateVaried}, {30, opRoute}, {14, opRouteMulti}, {6, opForge}, {10, g.opAddURI}, {10, g.opUpdateAttr}, {8, g.lateNetwork}, {8, opSecondLegAfterUpdate}})
 }
 
 // ---------------------------------------------------------------------------
